@@ -31,8 +31,10 @@ LEVEL_TEXT = ('Partial. Coq theorems over R about kernels regenerated from Tenso
               '(conversion needs 3 minutes; both are executed at binary64 and compared bit for bit on every run), rounding. '
               'LinAlg.sqrtm_dbp (Denman-Beavers product form; 3x3 hand model of the loop body with the generated TensorMath.inv, tied by a '
               'correspondence stream): for any scale factors and as long as the scaled M stay invertible, X_k^2 = A M_k and X_k M_k = M_k X_k, '
-              'hence X^2 - A = A (M - I) for the returned X (the exit test bounds the residual; M = I iff X^2 = A). Not proved: convergence, '
-              'invertibility along the path, sizes other than 3, logm_iss. The accuracy of eigen_sym33_unit, sqrt/exp/log/pow_symm, their '
+              'hence X^2 - A = A (M - I) for the returned X (the exit test bounds the residual; M = I iff X^2 = A). _logm_iss: for any L with the '
+              'doubling law L(XX) = 2 L(X), L(A) = 2^k L(X_k) along every chain of square roots (abstract; instance ln on positive reals; the '
+              'chain is checked on the implementation). Not proved: convergence, invertibility along the path, sizes other than 3, existence of '
+              'a matrix logarithm, accuracy of log_pade_pf. The accuracy of eigen_sym33_unit, sqrt/exp/log/pow_symm, their '
               'JVP rules, sqrtm and logm_iss is NOT proved for all inputs: every explored instance is certified by Coq result checkers '
               '(proved sound) executed by vm_compute on the exact rational values of the implementation outputs; the derivative '
               'rules of sqrt/log/exp/pow_symm are compared per instance (Coq checker) with the closed-form Daleckii-Krein derivative whose '
@@ -900,6 +902,38 @@ def l1_dbp(ctx):
     ctx.count('dbp_model_mismatches', mism)
 
 
+def l2_iss(ctx):
+    """round 4: the hypothesis and the conclusion structure of C12_iss_identity on the implementation: LinAlg._logm_iss returns
+    (X_k, k, m); X_k squared k times must give back A (1e-10 |A| max(1, cond/100): the square-root chain), and logm_iss(A) must be
+    exactly 2^k log_pade_pf(X_k - I, m) recomputed from those outputs (1e-12)."""
+    import jax.numpy as np
+    import numpy as onp
+    import optimism  # noqa: F401
+    from optimism import LinAlg
+    r = ctx.rng('l2iss')
+    for c in range(ctx.n(6, 24)):
+        n = 3 if c % 3 else 2
+        Xr = onp.array([[r.gauss(0, 1) for _ in range(n)] for _ in range(n)]) + n * onp.eye(n)
+        w = onp.array([10.0 ** r.uniform(-1, 1) for _ in range(n)])
+        A = Xr @ onp.diag(w) @ onp.linalg.inv(Xr)
+        X, k, m = LinAlg._logm_iss(np.array(A))
+        X, k, m = onp.array(X), int(k), int(m)
+        Y = X.copy()
+        for _ in range(k):
+            Y = Y @ Y
+        nA, cond = float(onp.max(onp.abs(A))), float(onp.linalg.cond(A))
+        e_chain = float(onp.max(onp.abs(Y - A))) / nA
+        Lg = onp.array(LinAlg.logm_iss(np.array(A)))
+        L2 = (1 << k) * onp.array(LinAlg.log_pade_pf(np.array(X) - np.identity(n), m))
+        e_rec = float(onp.max(onp.abs(Lg - L2))) / (float(onp.max(onp.abs(Lg))) + 1e-300)
+        ctx.count('iss_chain_conclusion_checks')
+        ctx.count('iss_square_roots_%02d' % k)
+        if not (e_chain <= 1e-10 * max(1.0, cond / 100) and e_rec <= 1e-12):
+            ctx.fail('conclusion', '_logm_iss: X_k squared %d times differs from A by %.3g relative; logm_iss differs from 2^k log_pade_pf(X_k - I) by %.3g'
+                     % (k, e_chain, e_rec), case=dict(check='logm_iss chain', kind='dense n=%d general' % n, gap=1.0, batch=False, A=A.tolist()),
+                     concrete=True)
+
+
 def evaluate(ctx, items):
     exprs = [e for e, _ in items if e is not None]
     res = C.coq_eval(IMPORTS, exprs, 'C12', shard=120, timeout=900)
@@ -950,6 +984,7 @@ def correspondence(ctx, model_ok):
     l1_trig(ctx)
     l1_defl(ctx)
     l1_dbp(ctx)
+    l2_iss(ctx)
 
 
 def search(ctx, reasons):
